@@ -68,7 +68,7 @@ impl Scenario for C05 {
             + enum_count(tier)
             + match tier {
                 Tier::Quick => 150_000,
-                Tier::Thorough => 3_000_000,
+                Tier::Thorough => 12_000_000,
             }
     }
     fn plan(&self, seed: u64, idx: u64, tier: Tier) -> Plan {
@@ -133,6 +133,7 @@ impl Scenario for C05 {
         let mut dev = SimReader::new(data, &plan.sched, tail, &plan.eintr, None).record_boundaries();
         let real = if plan.get("t") == T_BUFREADER {
             st.inc(crate::transport::transport_name(T_BUFREADER));
+            st.inc("fired.R6-std-BufReader-composition");
             Rec::decode(BufReader::with_capacity(plan.get_or("cap", 8).max(1) as usize, DevRef(&mut dev)))
         } else {
             st.inc(crate::transport::transport_name(T_SIM));
